@@ -23,7 +23,7 @@ type Scenario struct {
 	// SWRPre: values of earlier WithSWRTimeout options in the same option list (the last
 	// option, SWRNs, is the one in force)
 	SWRPre []int64 `json:"swr_pre,omitempty"`
-	Steps   []Step `json:"steps"`
+	Steps  []Step  `json:"steps"`
 	// Threads, if present, run concurrently after Steps (each thread issues its requests in order).
 	Threads [][]*Req `json:"threads,omitempty"`
 	// Wire: origin replies are rendered as raw HTTP/1.x bytes and delivered through a real
@@ -76,9 +76,9 @@ type Req struct {
 	HoldBody bool `json:"hold_body,omitempty"`
 	// Client behaviour after RoundTrip returned (used by the concurrency checks): scribble on
 	// the returned header map, read the body late, mutate the own request after closing the body.
-	Scribble   bool   `json:"scribble,omitempty"`
-	LateBodyNs int64  `json:"late_body_ns,omitempty"`
-	ReuseReq   bool   `json:"reuse_req,omitempty"`
+	Scribble   bool  `json:"scribble,omitempty"`
+	LateBodyNs int64 `json:"late_body_ns,omitempty"`
+	ReuseReq   bool  `json:"reuse_req,omitempty"`
 	// ReuseSet: header fields the caller sets on its own request when it reuses it (with
 	// ReuseReq), ReuseDelayNs how long after closing the body it does so.
 	ReuseSet     [][2]string `json:"reuse_set,omitempty"`
@@ -90,10 +90,10 @@ type Req struct {
 	// BodyLen > 0: the request carries a body of that many bytes (known length).
 	BodyLen int `json:"body_len,omitempty"`
 	// EmptyMethod: the request is sent with Method "" (which net/http defines as GET).
-	EmptyMethod bool `json:"empty_method,omitempty"`
-	Uncond     Reply  `json:"uncond"`
-	Cond       *Reply `json:"cond,omitempty"`
-	Bg         *Reply `json:"bg,omitempty"`
+	EmptyMethod bool   `json:"empty_method,omitempty"`
+	Uncond      Reply  `json:"uncond"`
+	Cond        *Reply `json:"cond,omitempty"`
+	Bg          *Reply `json:"bg,omitempty"`
 }
 
 // Reply describes what the scripted origin does for one call.
@@ -107,6 +107,9 @@ type Reply struct {
 	Trailer   [][2]string `json:"trailer,omitempty"`
 	Body      Body        `json:"body"`
 	NoTok     bool        `json:"no_tok,omitempty"` // do not add the X-Tok header / body token
+	// RespReqWithout: the upstream is a middleware that forwards a rewritten copy of the request
+	// (without this header field) and, like net/http, reports that copy in Response.Request.
+	RespReqWithout string `json:"resp_req_without,omitempty"`
 	// IgnoreCtx: the origin answers whatever happens to the request's context (an upstream that
 	// does not watch the context, or whose answer was complete just before the context ended).
 	IgnoreCtx bool `json:"ignore_ctx,omitempty"`
